@@ -422,6 +422,16 @@ def _interp_returns(f, env, facts):
             if not r: raise Unsupported('branch without return')
             return ev.s(r[0].n('sub'))
         if st.k == 'return': return ev.s(st.n('sub'))
+        if st.k == 'decl':
+            # const locals (`const bool p2Absolute = isAbsolutePath(p2);`, `const char last = p1.back();`) are bound on the way
+            for v in st.vars:
+                if not v.get('init'): raise Unsupported(f'uninitialised local {v["name"]}')
+                init = Node(f.tu, v['init'])
+                for f_ in (ev.b, ev.s, ev.i, ev.c):
+                    try: ev.env[v['decl']] = f_(init); break
+                    except Unsupported: continue
+                else: raise Unsupported(f'local {v["name"]} = {init.text()[:40]}')
+            continue
         raise Unsupported(f'statement {st.k} in join')
     raise Unsupported('no return')
 
